@@ -8,6 +8,7 @@ import (
 	"math"
 	"os"
 	"sync"
+	"sync/atomic"
 	"time"
 
 	wt "github.com/hnakamur/whispertool"
@@ -21,10 +22,27 @@ var (
 	wtArchivesCache = map[string]wt.ArchiveInfoList{}
 )
 
+var prefixListCount int64
+
 func wtArchives(l Layout) wt.ArchiveInfoList {
 	key := ""
 	for _, a := range l.Archives {
 		key += fmt.Sprintf("%d:%d,", a.Step, a.Points)
+	}
+	if caseSaltFn != nil && caseSalt()%6 == 4 {
+		// the list is the front part of a longer list that was already used for a header of its own (a program
+		// that keeps one list of retentions and creates files with the first k of them): it means the same archives
+		longer := make(wt.ArchiveInfoList, 0, len(l.Archives)+1)
+		for _, a := range l.Archives {
+			longer = append(longer, wt.NewArchiveInfo(wt.Duration(a.Step), uint32(a.Points)))
+		}
+		last := l.Archives[len(l.Archives)-1]
+		if last.Step*2 <= math.MaxInt32 {
+			longer = append(longer, wt.NewArchiveInfo(wt.Duration(last.Step*2), uint32(last.Points)))
+			guard(func() { wt.NewHeader(wt.Average, 0.5, longer) })
+			atomic.AddInt64(&prefixListCount, 1)
+			return longer[:len(l.Archives)]
+		}
 	}
 	wtArchivesMu.Lock()
 	defer wtArchivesMu.Unlock()
